@@ -65,7 +65,7 @@ HashIds == Paths \cup {UnknownHash, ZeroHash}
 AllTx == UNION {{Txs(n, v)[i] : i \in 1..Len(Txs(n, v))} : n \in 0..(MaxLen - 1), v \in Variants}
 
 (* transaction attributes are a function of the id's last digit (see MCRpcRead!MCTxs) *)
-TxType(t) == CASE t % 10 = 1 -> "INVOKE" [] t % 10 = 2 -> "L1_HANDLER" [] t % 10 = 3 -> "INVOKE"
+TxType(t) == CASE t % 10 = 1 -> "INVOKE" [] t % 10 \in {2, 7} -> "L1_HANDLER" [] t % 10 = 3 -> "INVOKE"
                [] t % 10 = 4 -> "DEPLOY_ACCOUNT" [] t % 10 = 5 -> "DECLARE" [] OTHER -> "DEPLOY"
 TxReverted(t) == t % 10 = 3
 Exec(t) == IF TxReverted(t) THEN "REVERTED" ELSE "SUCCEEDED"
